@@ -414,8 +414,8 @@ class PathCtx:
         tau = getattr(self, "taylor_tau", None)
         if tau:
             ok, tinfo = self.taylor_try(self, res, tau)
-            if not ok and tinfo.get("taylor") == "path has no small-ball condition":
-                tau = None     # generic path: exact obligation
+            # (no recognised small-ball condition: the interval bound is unavailable, the numeric
+            #  classification below still uses the contract's tolerance)
             if ok:
                 self.rep.ok(oname, "TAYLOR", "interval-bound", dt,
                             detail={"path": self.path.key, "tolerance": tau, "bound": tinfo})
@@ -469,7 +469,11 @@ class PathCtx:
             return
         if os.environ.get("VERIF_DEBUG"):
             print("DEBUG", oname, resid, alg.describe())
-        self.rep.undecide(oname, kind, "nf", "non-zero remainder, no sampled input follows the path, z3 feasibility %s" % r)
+        # neither proved nor refuted: no input reaching this path could be constructed (random regimes,
+        # threshold bisection, solver model) and its feasibility is not decided -> labelled stand-in
+        self.rep.standin(oname, kind, "unreached-path",
+                         {"path": self.path.key, "z3_feasibility": r,
+                          "why_not_proved": "non-zero normal form on a path that no constructed input follows"})
 
     # ---- derivative obligations
     def directions(self, wrt):
